@@ -77,6 +77,16 @@ def gen_case(seed: int, prop: str, tier: str) -> dict:
             cc = chains.gen_case(rng.getrandbits(50), "C08", tier, kind=rng.choice(["qcow2snap", "qcow2snap", "qcow2", "vhdx", "vmdk", "hdd", "vdi"]))
             if not cc.get("fault"):
                 break
+        if cc["kind"] == "qcow2snap" and cc["layers"][0]["cfg"].get("compress") and rng.random() < 0.6:
+            # the same guest clusters compressed in every view, with different content each: anything a view remembers about a
+            # cluster it inflated is wrong for the next view
+            unit = cc["layers"][0]["unit"]
+            nunits = (cc["layers"][0]["cfg"]["nsectors"] + unit - 1) // unit
+            hot = sorted({0, nunits - 1, rng.randrange(nunits)})
+            for li, L in enumerate(cc["layers"]):
+                for hj, u in enumerate(hot):
+                    ln = min(unit, cc["layers"][0]["cfg"]["nsectors"] - u * unit)
+                    L["ops"] = L["ops"] + [["w", u * unit, ln, 5000 + 10 * li + hj], ["c", u]]
         nviews = len(cc["layers"])
         multi = cc["kind"] in ("qcow2snap", "hdd")
         nclients = rng.choice([1, 2, 3]) if multi else 1
@@ -125,8 +135,12 @@ def gen_case(seed: int, prop: str, tier: str) -> dict:
     nops = rng.choice([10, 20, 40] if tier == "quick" else [10, 30, 80, 200, 400])
     nclients = len(src["views"]) if src["kind"] == "chain" else rng.choice([1, 1, 2])
     hist = _gen_history(rng, size, sector, unit_bytes, marks, nops, nclients, [a1, a2], has_rs)
-    return {"engine": "history", "prop": prop, "seed": seed, "src": src, "aligns": [a1, a2], "nclients": nclients,
+    case = {"engine": "history", "prop": prop, "seed": seed, "src": src, "aligns": [a1, a2], "nclients": nclients,
             "cache": rng.choice([None, None, 1, 2, 7]), "hist": hist}
+    # two reader objects built over one and the same caller-supplied handle object, used alternately: every reader positions
+    # the handle itself before it reads, so what one object returns cannot depend on what the other one did in between
+    case["share_handle"] = src["kind"] == "stub" and nclients == 2 and rng.random() < 0.4
+    return case
 
 
 @lru_cache(None)
@@ -152,6 +166,13 @@ def _gen_history(rng, size, sector, unit, marks, nops, nclients, aligns, has_rs)
         n = rng.choice([0, 1, 2, sector - 1, sector, sector + 1, 4096, 8192, 8191, 8193, aligns[0], aligns[0] + 1,
                         max(1, aligns[1] - 1), 3 * aligns[0] + 7, unit, unit + 1, rng.randint(1, 100000)])
         n = min(n, 4 << 20)
+        if nclients > 1 and rng.random() < 0.12:
+            # every client reads the same range, one after the other
+            order = list(range(nclients))
+            rng.shuffle(order)
+            for cc in order:
+                ops.append(["readoffset", cc, min(pos, size + 3), n])
+            continue
         if r < 0.22:
             wh = rng.choice([0, 0, 1, 2])
             if wh == 0:
@@ -248,6 +269,7 @@ def run_case(case: dict) -> RunResult:
                 break
             set_stream_align(align)
             streams = {}
+            shared_handles = {}
             if src["kind"] == "chain" and pass_no:
                 opener, rs_fn, sector = _open(world, case)  # a fresh set of shared objects for the second buffer size
             size = None
@@ -260,6 +282,20 @@ def run_case(case: dict) -> RunResult:
                     with metered(STEP_LIMIT, "loop", world.step_allowance(STEP_LIMIT, 2.0, 1 << 22)):
                         if src["kind"] == "chain":
                             st = chain_open(src["views"][c])
+                        elif case.get("share_handle"):
+                            real = world.handle
+
+                            def one_handle(path, named=True, _memo=shared_handles, _real=real):
+                                if (path, named) not in _memo:
+                                    _memo[(path, named)] = _real(path, named)
+                                _memo[(path, named)].seek(0)  # constructors parse from the current position: rewinding is the caller's part
+                                return _memo[(path, named)]
+
+                            world.handle = one_handle
+                            try:
+                                st = opener()
+                            finally:
+                                world.handle = real
                         else:
                             st = opener()
                         if case["cache"]:
